@@ -3,7 +3,8 @@ use crate::fw::*;
 use crate::subj::cur::{ProguardMapping, ProguardRecord};
 use serde_json::{json, Value};
 
-pub const LINES: [&str; 14] = [
+pub const LINES: [&str; 15] = [
+    "      # {\"id\":\"com.android.tools.r8.synthesized\"}",
     "p.A -> a:",
     "    int f -> g",
     "    1:2:void p():3:4 -> m",
@@ -117,6 +118,51 @@ fn check(bytes: &[u8], acc: &mut Acc) {
     }
 }
 
+/// operation sequences through `section()`: the metadata of every section(i..j) must be the fold over exactly
+/// those bytes, whatever was asked of the parent before (nothing cached may travel with the value)
+fn sections_pass(acc: &mut Acc) {
+    let sources: [&[u8]; 3] = [
+        b"# note:    1:1:void m() -> a\np.A -> a:\n        2:2:void n() -> b\n# min_api: 24\n",
+        b"p.A -> a:\n    void q() -> n\n# compiler: R8\n    1:2:void p():3:4 -> m\n",
+        b"garbage\n# compiler\np.B -> b:\n    int f -> g\n",
+    ];
+    for src in sources {
+        for ask_parent_first in [true, false] {
+            let parent = ProguardMapping::new(src);
+            if ask_parent_first {
+                let _ = (parent.has_line_info(), parent.is_valid(), parent.summary().class_count());
+            }
+            for i in 0..=src.len() {
+                for j in i..=src.len() {
+                    acc.states += 1;
+                    acc.observations += 7;
+                    let sec = parent.section(i..j);
+                    let s = sec.summary();
+                    let got = Meta {
+                        has_line_info: sec.has_line_info(),
+                        is_valid: sec.is_valid(),
+                        classes: s.class_count(),
+                        methods: s.method_count(),
+                        compiler: s.compiler().map(|x| x.to_string()),
+                        compiler_version: s.compiler_version().map(|x| x.to_string()),
+                        min_api: s.min_api(),
+                    };
+                    let exp = fold(&src[i..j]);
+                    if got != exp {
+                        acc.violation("meta:section", j - i, || (format!("section({}..{}) of {:?} (parent asked first: {}): fold over those bytes says {:?}, the API says {:?}", i, j, esc(src), ask_parent_first, exp, got), json!({"kind":"sections"})));
+                    }
+                }
+            }
+            // and the parent afterwards
+            let got = observe(src);
+            if got != fold(src) {
+                acc.violation("meta:section", src.len(), || ("parent metadata wrong after sections".into(), json!({"kind":"sections"})));
+            }
+        }
+    }
+    acc.count("section(i..j) metadata checks", 1);
+}
+
 fn dfs(buf: &mut Vec<u8>, left: usize, term: &[u8], acc: &mut Acc, budget: &Budget) {
     acc.transitions += 1;
     check(buf, acc);
@@ -176,6 +222,31 @@ fn positional() -> Vec<Vec<u8>> {
             v.push(nomap.into_bytes());
         }
     }
+    // the 50-item window behind a class line: the class, then j indented R8 comment lines (error items) and
+    // k - j member-less class lines in every arrangement of the comments at the front / middle / end, then the first member
+    for k in 44..=54usize {
+        for j in 0..=3usize {
+            for place in 0..3usize {
+                let comment = "      # {\"id\":\"com.android.tools.r8.synthesized\"}\n";
+                let filler = "p.Z -> z:\n";
+                let mut items: Vec<&str> = vec![filler; k - j.min(k)];
+                let at = match place {
+                    0 => 0,
+                    1 => items.len() / 2,
+                    _ => items.len(),
+                };
+                for _ in 0..j.min(k) {
+                    items.insert(at, comment);
+                }
+                let mut f = String::from("p.Y -> y:\n");
+                for it in items {
+                    f.push_str(it);
+                }
+                f.push_str("    void late() -> l\n");
+                v.push(f.into_bytes());
+            }
+        }
+    }
     // a single line-mapped method whose line straddles a multiple of B at every cut position (an implementation
     // that scans the file in blocks of B bytes would cut it in two), for B in {4096, 65536, 2^20}; everything before
     // and after it are 32-byte lines of unmapped methods
@@ -213,6 +284,7 @@ fn positional() -> Vec<Vec<u8>> {
 }
 
 enum Work {
+    Sections,
     Seq(Vec<usize>, usize, &'static [u8]),
     Pos(usize, usize),
 }
@@ -240,7 +312,13 @@ pub fn run(tier: Tier) -> i32 {
         i += 16;
     }
     let npos = pos.len();
+    work.push(Work::Sections);
     let acc = par_run(&work, &budget, |w, acc, budget| match w {
+        Work::Sections => {
+            if let Err(p) = guarded(|| sections_pass(acc)) {
+                acc.violation(format!("panic:{}", panic_site(&p)), 0, || (p.clone(), json!({"kind":"sections"})));
+            }
+        }
         Work::Seq(first, depth, term) => {
             let mut buf = Vec::new();
             for &i in first {
@@ -262,7 +340,7 @@ pub fn run(tier: Tier) -> i32 {
         prop: "C19",
         tier,
         level: "model_checking",
-        rule: format!("every file of <= {} lines over the 14-line alphabet (class, field, method with / without usable range, 0:0 method, compiler / compiler_version / min_api headers incl. valueless, non-numeric and 2^32, garbage, blank), each also without its final newline (thorough: also with CRLF); positional families ({} files): k = 0..=52 leading noise / header / class / blank / field lines before the first class+member pair, a class line followed by k lines and then the first member, the first line-mapped method after n in {{0,1,49,50,51,1000,20000}} unmapped ones with error / blank lines interspersed, with and without final newline, headers after everything; a single line-mapped method placed so that it straddles a multiple of 4096 / 65536 / 2^20 at every cut position. Oracle: independent fold over the items of iter(). distinct = distinct metadata tuples", depth, npos),
+        rule: format!("every file of <= {} lines over the 15-line alphabet (indented R8 comment, class, field, method with / without usable range, 0:0 method, compiler / compiler_version / min_api headers incl. valueless, non-numeric and 2^32, garbage, blank), each also without its final newline (thorough: also with CRLF); positional families ({} files): k = 0..=52 leading noise / header / class / blank / field lines before the first class+member pair, a class line followed by k lines and then the first member, the first line-mapped method after n in {{0,1,49,50,51,1000,20000}} unmapped ones with error / blank lines interspersed, with and without final newline, headers after everything; a single line-mapped method placed so that it straddles a multiple of 4096 / 65536 / 2^20 at every cut position. the 50-item window behind a class line filled with 44..54 items of which 0..3 are indented R8 comment lines; the metadata of every section(i..j) of three small files, with and without asking the parent first. Oracle: independent fold over the items of iter(). distinct = distinct metadata tuples", depth, npos),
         bounds: json!({"depth": depth, "alphabet": LINES, "positional_files": npos}),
         assumptions: vec!["the statement defines the answers as functions of the record stream; the stream itself is the subject of C05/C06".into()],
         trusted_base: vec!["rustc/std".into(), "the fold in pgmc/src/props/c19.rs".into()],
@@ -272,6 +350,10 @@ pub fn run(tier: Tier) -> i32 {
 
 pub fn recheck(case: &Value) -> Vec<String> {
     let mut acc = Acc::new();
+    if case["kind"] == "sections" {
+        sections_pass(&mut acc);
+        return acc.violations.keys().cloned().collect();
+    }
     check(&unesc(case["text"].as_str().unwrap_or("")), &mut acc);
     acc.violations.keys().cloned().collect()
 }
